@@ -133,6 +133,10 @@ def check_def(view, exp, devname, viol, facts, ctx):
         if _n(ktext) != expv:
             viol.append({"clause": "C07.members", "detail": f"{vs['name']}.{es['name']} defined with value {ktext!r}, current value renders as {expv!r}; {ctx}", "facts": facts})
             return
+        if vs["kind"] == "Number" and V.denotes(_n(ktext), te["value"], es["format"]) is False:
+            # independent of the library's renderer: whatever the text looks like, it must denote the element's current value
+            viol.append({"clause": "C07.members", "detail": f"{vs['name']}.{es['name']} (format {es['format']}) is defined as {ktext!r}, which does not denote its current value {te['value']!r}; {ctx}", "facts": dict(facts, numeric=True)})
+            return
 
 
 def execute(scen):
